@@ -616,6 +616,7 @@ type Heap struct {
 	pre     *Heap
 	oldNow  string
 	keep    []string // refs of non-escaping local maps: untouched by this havoc (calls / loop bodies that do not update them)
+	keepE   []string // cells of effectively-final captured variables (written once by the enclosing function, only read by closures)
 }
 
 func (vc *VC) newHeap(kind int) *Heap {
@@ -691,6 +692,12 @@ func (vc *VC) lookup(h *Heap, fam string) string {
 			if len(h.keep) > 0 && strings.HasPrefix(fam, "M_") {
 				p := vc.lookup(h.parent, fam)
 				for _, r := range h.keep {
+					vc.assert("(= (select " + t + " " + r + ") (select " + p + " " + r + "))")
+				}
+			}
+			if len(h.keepE) > 0 && strings.HasPrefix(fam, "E_") {
+				p := vc.lookup(h.parent, fam)
+				for _, r := range h.keepE {
 					vc.assert("(= (select " + t + " " + r + ") (select " + p + " " + r + "))")
 				}
 			}
